@@ -131,6 +131,9 @@ static SITES: std::sync::Mutex<Vec<&'static str>> = std::sync::Mutex::new(Vec::n
 pub fn set_sites(prefixes: &[&'static str]) { *SITES.lock().unwrap() = prefixes.to_vec(); }
 
 fn hook_thread_point(site: &'static str) {
+    if std::env::var_os("VERIF_TRACE").is_some() {
+        eprintln!("  [{:?}] {site}", std::thread::current().name().map(str::to_string));
+    }
     if site.starts_with("wb_") {
         pipeline::step_thread_point(site);
     } else if token::is_registered() && SITES.lock().unwrap().iter().any(|p| site.starts_with(p)) {
@@ -139,6 +142,9 @@ fn hook_thread_point(site: &'static str) {
 }
 
 fn hook_event(site: &'static str, a: u64, b: u64) {
+    if std::env::var_os("VERIF_TRACE").is_some() {
+        eprintln!("  [{:?}] event {site} {a} {b}", std::thread::current().name().map(str::to_string));
+    }
     if site == "wb_created" {
         LAST_CREATED.with(|c| c.set(Some(a)));
     }
